@@ -108,6 +108,23 @@ int main(int argc, char **argv) {
 			}
 		}
 	}
+	if (vh_has_arg("four")) {
+		/* thorough: EVERY 4-byte buffer through all three entry points (2^32 buffers) */
+		uint8_t *p = malloc(4);
+		for (uint64_t stripe = 0; stripe < 4096; stripe++) {
+			if (!vh_mine(stripe)) continue;
+			if (vh_time_up()) break;
+			struct ccase c = { 9, 4, 0, (int) (stripe << 20), 0 }; vh_case_begin(render, &c);
+			for (uint64_t x = stripe << 20; x < (stripe + 1) << 20; x++) {
+				p[0] = x; p[1] = x >> 8; p[2] = x >> 16; p[3] = x >> 24;
+				uint32_t want = ref_crc_t(p, 4);
+				if (mtbl_crc32c(p, 4) != want || my_crc32c_slicing(p, 4) != want || (have_sse && my_crc32c_sse42(p, 4) != want)) { c.pos = (int) x; vh_violation("four", "a CRC implementation is wrong on the 4-byte buffer %s (standard CRC-32C %08x)", vh_hex(p, 4), want); break; }
+			}
+			VH_COUNT("cases", 1 << 20); VH_COUNT("transitions", 3 << 20); VH_COUNT("all_4_byte_buffers_stripes", 1);
+			vh_case_end();
+		}
+		free(p);
+	}
 	if (vh_shard == 0) { vh_sample("crc:fam=lcg:len=1100:align=7"); vh_sample("crc:zeros:len=8:align=0:pos=3:val=255"); vh_sample("crc:bytes=0000..ffff"); }
 	return vh_finish();
 }
